@@ -27,7 +27,7 @@ WORLD_INFO = {'real': ['Cluster, Session, ControlConnection, ResponseFuture (_on
               'stub': ['libev C binding', 'sockets/TCP', 'ThreadPoolExecutor (SimExecutor)', 'fake Cassandra node (independent codec)']}
 ASSUMPTIONS = ['orphaned_threshold is set high: connection replacement is C13']
 REQUIRED_PROBES = ['late_response_after_timeout', 'client_timeout', 'id_space_grew', 'dropped_request', 'same_host_retry',
-                   'retried_request_timed_out', 'send_refused_busy', 'ctl_wait_timed_out_polls', 'ctl_connection_survived', 'one_byte_stream_ids']
+                   'retried_request_timed_out', 'send_refused_busy', 'ctl_wait_timed_out_polls', 'ctl_connection_survived', 'one_byte_stream_ids', 'prepared_statement_evicted']
 
 
 def prepare():
@@ -45,7 +45,25 @@ def gen_plan(rng, tier):
         return gen_plan_ctl(rng)
     if k < 0.47:
         return gen_plan_legacy(rng)
+    if k < 0.55:
+        return gen_plan_reprep(rng)
     return gen_plan_pool(rng)
+
+
+def gen_plan_reprep(rng):
+    """Bound statements whose node forgets the statement: EXECUTE -> UNPREPARED -> PREPARE -> EXECUTE, each on a stream of its own, with
+    client timeouts that fire anywhere in that chain."""
+    p = gen_plan_pool(rng, mif=rng.choice([4, 8, 16]))
+    p['mode'] = 'reprep'
+    p['fault'] = None
+    p['version'] = rng.choice([4, 4, 5])
+    p['slow'] = rng.choice([1, 3, 10])
+    for r in p['requests']:
+        r['timeout'] = rng.choice([0.004, 0.01, 0.03, 0.1, 2.0])
+        r['script'] = {'kind': 'ok', 'delay': rng.choice([0.001, 0.005, 0.03])}
+        r['evict'] = rng.random() < 0.6
+        r['think'] = rng.choice([0, 0.001, 0.01])
+    return p
 
 
 def gen_plan_legacy(rng):
@@ -295,6 +313,9 @@ def run_plan(plan, seed, choices=None):
             st['conn'] = cs[0] if cs else None
         if plan['fault']:
             sim.at(plan['fault']['at'], lambda: w.fc.rst_conns(0, 'pool'), 'fault rst pool conns')
+        if mode == 'reprep':
+            st['ps'] = session.prepare("SELECT * FROM ks1.t WHERE k=? /*stmt*/")
+            w.net.slow[w.fc.nodes[0].addr] = plan.get('slow', 1)
         if mode == 'busy':
             b = plan['busy']
 
@@ -325,7 +346,13 @@ def run_plan(plan, seed, choices=None):
                 continue
             o = obs[i] = ReqObs(w, i)
             try:
-                o.start(w.session, "SELECT * FROM ks1.t /*rid=%d*/" % i, timeout=r['timeout'])
+                if mode == 'reprep':
+                    if r.get('evict'):
+                        w.fc.nodes[0].prepared.clear()        # the node restarted / evicted its prepared-statement cache
+                        sim.probe('prepared_statement_evicted')
+                    o.start(w.session, st['ps'].bind((i,)), timeout=r['timeout'])
+                else:
+                    o.start(w.session, "SELECT * FROM ks1.t /*rid=%d*/" % i, timeout=r['timeout'])
                 mine.append(o)
             except Exception as e:
                 o.result = ('err', type(e).__name__, str(e)[:160])
